@@ -2,6 +2,6 @@
     [ExtrOcamlBasic] only: bool, option, unit, list, prod, sumbool, sumor map to
     OCaml natives; nat, positive, N, Z stay the extracted inductive types. *)
 From Coq Require Import ExtrOcamlBasic.
-From PQL Require Import Model.Show Spec.Expected Spec.Grammar.
+From PQL Require Import Model.Show Spec.Expected Spec.Grammar Proofs.SqlGlue.
 Extraction Language OCaml.
-Extraction "model.ml" scan split_statements show_tokens show_pieces show_parse show_spans show_compile show_walk show_lit show_cli show_cli_gen reread show_gram.
+Extraction "model.ml" scan split_statements show_tokens show_pieces show_parse show_spans show_compile show_walk show_lit show_cli show_cli_gen reread show_gram show_glue.
